@@ -424,6 +424,7 @@ impl<K: KeyT, V: ValT> World<K, V> {
                     k
                 }
             };
+            let k = if K::NAME == "zst" { 0 } else { k };
             o["k"] = json!(k);
         }
         if let Some(p) = op.get("pred").and_then(|x| x.as_object()) {
